@@ -18,6 +18,7 @@ RULE = (
     "trace and the producing invocation named by each argument term. Non-trivial: >= 2 async bodies were parked "
     "simultaneously at some quiescent point or >= 3 executions compared; distinct = canonical program shape."
     ' Also: two or three sibling nested graphs running in the same step, some built with with_entrypoint and holding a satisfiable node outside the entry scope.'
+    ' Also: whole gated / cyclic / signal programs used as one nested-graph node (depth 1-2) and sibling nested graphs that bind one input name to equal or different values (with a plain reader of that name), compared across node orders.'
 )
 ASSUMPTIONS = [
     "quiescence is detected exactly from the event loop's ready queue (single loop, no timers, no I/O)",
